@@ -158,9 +158,17 @@ class Gen:
         elif k < 0.3:
             n = r.choice(NAMES)
             out.append(("assign", n, self.small_expr(names)))
-        elif k < 0.38:
+        elif k < 0.36:
             n = r.choice(NAMES)
             out.append(("opassign", n, r.choice(["+", "-", "*"]), I(r.randint(1, 3))))
+        elif k < 0.40:
+            # destructuring forms: assignment updates the nearest enclosing bindings, def binds here
+            two = r.sample(NAMES, 2)
+            src_ = ("list", [self.small_expr(names), self.small_expr(names)] + ([I(7)] if r.random() < 0.3 else []))
+            if r.random() < 0.3:
+                src_ = ("list", [self.small_expr(names)])          # short: the second target gets NULL
+            out.append((r.choice(["assigndestr", "assigndestr", "defdestr"]), two, src_))
+            out.append(LOG("destr.%d" % depth, ("list", [V(two[0]), V(two[1])])))
         elif k < 0.5:
             n = r.choice(names)
             out.append(LOG("see.%d.%s" % (depth, n), V(n)))
@@ -569,7 +577,18 @@ def t_methods(g):
             LOG("m3", ("mcall", V("leaf"), "hello2", [])), LOG("m4", ("mcall", V("leaf"), "only_base", [])),
             LOG("m5", ("member", V("leaf"), "name")), LOG("m6", ("member", V("leaf"), "missing")),
             ("block", [LOG("m7", ("mcall", V("leaf"), "nomethod", []))], [(None, LOG("m7.err", S("error")))], []),
-            ("block", [LOG("m8", ("mcall", V("leaf"), "name", []))], [(None, LOG("m8.err", S("error")))], [])]
+            ("block", [LOG("m8", ("mcall", V("leaf"), "name", []))], [(None, LOG("m8.err", S("error")))], []),
+            # the chain is consulted on every call: replace a method on the class, shadow it in between, re-point _proto_
+            ("memassign", V("base"), "hello", ("fn", [("self", None, False), ("x", None, False)], ("list", [S("replaced"), V("x")]))),
+            LOG("m9", ("mcall", V("leaf"), "hello", [("pos", I(3))])), LOG("m10", ("mcall", V("leaf"), "hello2", [])),
+            ("memassign", V("mid"), "hello", ("fn", [("self", None, False), ("x", None, False)], ("list", [S("mid-override"), V("x")]))),
+            LOG("m11", ("mcall", V("leaf"), "hello", [("pos", I(4))])), LOG("m12", ("mcall", V("base"), "hello", [("pos", I(5))])),
+            ("def", "other", ("obj", [("hello", ("fn", [("self", None, False), ("x", None, False)], S("other"))), ("name", S("other-name"))])),
+            ("memassign", V("leaf"), "_proto_", V("other")),
+            LOG("m13", ("mcall", V("leaf"), "hello", [("pos", I(6))])), LOG("m14", ("member", V("leaf"), "name")),
+            ("block", [LOG("m15", ("mcall", V("leaf"), "only_base", []))], [(None, LOG("m15.err", S("error")))], []),
+            ("memassign", V("leaf"), "hello", ("fn", [("self", None, False), ("x", None, False)], S("own"))),
+            LOG("m16", ("mcall", V("leaf"), "hello", [("pos", I(7))]))]
 
 
 def t_fresh_frames(g):
@@ -591,4 +610,19 @@ def t_def_in_block(g):
             ("block", [("def", "topblock", I(9))], [], [LOG("fin2", I(0))]), LOG("topblock", V("topblock"))]
 
 
-SCOPE_TEMPLATES = [t_counter, t_lexical_vs_dynamic, t_assign_nearest, t_defaults, t_binding, t_methods, t_fresh_frames, t_def_in_block]
+def t_destructuring(g):
+    return [("def", "p", I(1)), ("def", "q", I(2)),
+            ("deffn", "swap", [], ("seq", [("assigndestr", ["p", "q"], ("list", [V("q"), V("p")])), ("list", [V("p"), V("q")])])),
+            LOG("swap", CALL("swap")), LOG("top.pq", ("list", [V("p"), V("q")])),
+            ("deffn", "mk", [], ("seq", [("def", "n", I(0)), ("def", "m", I(10)),
+                                         ("fn", [], ("seq", [("assigndestr", ["n", "m"], ("list", [("bin", "+", V("n"), I(1)), ("bin", "-", V("m"), I(1))])),
+                                                             ("list", [V("n"), V("m")])]))])),
+            ("def", "step", CALL("mk")), LOG("s1", CALL("step")), LOG("s2", CALL("step")), LOG("s3", CALL("step")),
+            ("deffn", "local", [], ("seq", [("defdestr", ["p", "q"], ("list", [I(100), I(200)])), ("list", [V("p"), V("q")])])),
+            LOG("local", CALL("local")), LOG("top.pq2", ("list", [V("p"), V("q")])),
+            ("block", [("assigndestr", ["p", "undefined_target"], ("list", [I(5), I(6)]))], [(None, LOG("destr.err", S("error")))], []),
+            LOG("top.p3", V("p")),
+            ("block", [LOG("leak", V("undefined_target"))], [(None, LOG("no-leak", S("ok")))], [])]
+
+
+SCOPE_TEMPLATES = [t_destructuring, t_counter, t_lexical_vs_dynamic, t_assign_nearest, t_defaults, t_binding, t_methods, t_fresh_frames, t_def_in_block]
